@@ -9,7 +9,7 @@ decoded; TLC validates the traces.
 """
 import copy, datetime as dt, itertools, json, os
 
-from vf import check, common, gen, observe, tlc
+from vf import check, common, gen, observe, refcodec as rc, tlc
 from vf.common import MachineryError
 
 PROP = "C05"
@@ -55,7 +55,7 @@ def _rejects():
         "net.ipaddress": [("octet", "999.1.1.1"), ("text", "not an address"), ("toolong", "1.2.3.4.5"), ("neg", -1), ("huge", 2**128)],
         "net.ipnetwork": [("text", "not a network"), ("hostbits", "10.0.0.1/8"), ("prefix", "10.0.0.0/40")],
         "net.IPAddress": [("text", "nonsense")],
-        "bytes": [("text", "text"), ("int", 5), ("list", [1, 2]), ("bytearray_ok", None)],
+        "bytes": [("text", "text"), ("int", 5), ("list", [1, 2]), ("bytearray", bytearray(b"ab")), ("memoryview", memoryview(b"ab"))],
     }
 
 
@@ -71,7 +71,7 @@ def unspecified():
         "datetime": [("isotext", "2020-01-01T00:00:00"), ("epoch", 0), ("bytes", b"2020-01-01T00:00:00+00:00"), ("garbage", "not a date"), ("object", None)],
         "digest": [("text", "abc"), ("int", 0), ("dict", {"md5": gen.MD5})],
         "path": [("int", 5), ("bytes", b"/a")],
-        "command": [("int", 5), ("list", ["ls", "-l"])],
+        "command": [("int", 5), ("list", ["ls", "-l"]), ("unbalanced_quote", 'sh -c "echo hello'), ("blank", "   "), ("empty", "")],
         "uri": [("int", 5)],
         "net.ipaddress": [("int", 16909060), ("bytes4", b"\x01\x02\x03\x04")],
         "stringlist": [("text", "ab"), ("int", 5)],
@@ -89,6 +89,14 @@ def conversions():
         "string": [("bytes_escape", b"ab\xff")],
         "varint": [("bool", True)],
     }
+
+
+def safe_obs(rec):
+    """deep observation of a record; a value that cannot even be looked at (its own accessors raise) is reported as such"""
+    try:
+        return json.dumps(observe.obs_record(rec), sort_keys=True)
+    except Exception as e:
+        return "UNOBSERVABLE:" + type(e).__name__
 
 
 def slot_state(rec, name, ftype_cls, islist):
@@ -189,7 +197,7 @@ def run(tier):
                     v = copy.deepcopy(v)
                 except Exception:
                     v = list(v) if isinstance(v, list) else v      # some field-type instances cannot be deep-copied
-                before = json.dumps(observe.obs_record(rec), sort_keys=True) if rec is not None else None
+                before = safe_obs(rec) if rec is not None else None
                 raised, exc = False, "none"
                 try:
                     if op == "construct" or rec is None:
@@ -209,9 +217,9 @@ def run(tier):
                 if rec is None:
                     ops.append({"op": op, "cand": label, "must": must if must != "none" else "accept", "raised": raised, "exc": exc, "slot": "unset", "changed": False})
                     continue
-                after = json.dumps(observe.obs_record(rec), sort_keys=True)
+                after = safe_obs(rec)
                 ops.append({"op": op, "cand": label, "must": must if must != "none" else "accept", "raised": raised, "exc": exc,
-                            "slot": slot_state(rec, "f", fcls, islist), "changed": before is not None and after != before})
+                            "slot": "foreign" if after.startswith("UNOBSERVABLE") else slot_state(rec, "f", fcls, islist), "changed": before is not None and after != before})
             fin = {"done": True, "all_accepted": rec is not None and not any(o["raised"] for o in ops), "packed": True, "decoded_typed": True, "why": "none"}
             if rec is not None and fin["all_accepted"]:
                 try:
@@ -232,6 +240,45 @@ def run(tier):
             traces.append({"ops": ops, "fin": fin})
             metas.append({"type": tn, "history": [(op, c[0], c[2]) for op, c in h]})
             ctx.case(json.dumps(metas[-1]))
+    # DECODING: a record frame (built with the reference encoder) carries a value the field type cannot represent -- the
+    # reader must refuse it; a frame carrying a representable value decodes to a typed slot
+    import io
+
+    from flow.record import RecordStreamReader
+
+    MD5B, SHA1B, SHA256B = bytes(range(16)), bytes(range(20)), bytes(range(32))
+    wire = {
+        "uint16": [("over", 70000, "reject"), ("neg", -1, "reject"), ("ok", 65535, "accept")],
+        "uint32": [("over", 2**32, "reject"), ("ok", 7, "accept")],
+        "net.tcp.Port": [("over", 65536, "reject"), ("ok", 80, "accept")],
+        "boolean": [("two", 2, "reject"), ("ok", True, "accept")],
+        "digest": [("short_md5", [rc.Bin(b"abc"), None, None], "reject"), ("md5_in_sha256_slot", [None, None, rc.Bin(MD5B)], "reject"), ("long_sha1", [None, rc.Bin(SHA256B), None], "reject"),
+                   ("ok", [rc.Bin(MD5B), rc.Bin(SHA1B), rc.Bin(SHA256B)], "accept")],
+        "net.ipaddress": [("octet", "999.1.1.1", "reject"), ("neg", -1, "reject"), ("ok", 16909060, "accept")],
+        "bytes": [("text", "text", "reject"), ("ok", rc.Bin(b"ab"), "accept")],
+    }
+    for T, cands in wire.items():
+        fcls = fieldtype(T)
+        for islist in (False, True):
+            tn = T + ("[]" if islist else "")
+            fcls = fieldtype(tn)
+            name = "t/wire_" + gen.typename_slug(tn)
+            fields = [(tn, "f"), ("string", "g")]
+            for label, raw, must in cands:
+                if islist and T == "digest":
+                    continue
+                val = [raw, raw] if islist else raw
+                data = rc.header_frame() + rc.descriptor_frame(name, fields) + rc.record_frame(name, fields, [val, "x", None, None, rc.ext_datetime_utc(2020, 1, 2, 3, 4, 5, 6), 1])
+                raised, exc, slot = False, "none", "unset"
+                try:
+                    back = list(RecordStreamReader(io.BytesIO(data)))
+                    slot = slot_state(back[0], "f", fcls, islist) if safe_obs(back[0]).startswith("{") else "foreign"
+                except Exception as e:
+                    raised, exc = True, type(e).__name__
+                traces.append({"ops": [{"op": "decode", "cand": label, "must": must, "raised": raised, "exc": exc, "slot": slot, "changed": False}],
+                               "fin": {"done": True, "all_accepted": False, "packed": True, "decoded_typed": True, "why": "none"}})
+                metas.append({"type": tn, "history": [("decode", label, must)]})
+                ctx.case(json.dumps(metas[-1]))
     ctx.sample({"meta": metas[3], "trace": traces[3]})
     path = os.path.join(common.scratch("c05"), "traces.json")
     tlc.write_json(path, traces)
